@@ -25,6 +25,7 @@ struct SrvScript {
     QString smId;           // id of the resumable server-side session
     int smCount = 0;        // stanzas the server has received on that session
     bool smActive = false;
+    bool sasl2 = false;     // authenticate with XEP-0388 (SASL 2) + bind 2 with inline stream management
     QString why;            // reason of the last failed step
     int timeoutMs = 3000;
 
@@ -40,6 +41,12 @@ struct SrvScript {
         cfg.setDisabledSaslMechanisms({});
         cfg.setUseSasl2Authentication(false);
         cfg.setUseNonSASLAuthentication(false);
+    }
+
+    void setSasl2(bool on)
+    {
+        sasl2 = on;
+        c.configuration().setUseSasl2Authentication(on);
     }
 
     static QString tr(Kind k)
@@ -117,6 +124,9 @@ struct SrvScript {
             return fail("no stream header");
         }
         absorb();
+        if (sasl2) {
+            return connectSasl2(k, sig0, sent0, recv0);
+        }
         peer.write((header() + "<stream:features><mechanisms xmlns='urn:ietf:params:xml:ns:xmpp-sasl'>"
                                "<mechanism>PLAIN</mechanism></mechanisms></stream:features>")
                        .toUtf8());
@@ -151,8 +161,15 @@ struct SrvScript {
                 return true;
             }
             peer.write("<failed xmlns='urn:xmpp:sm:3'><item-not-found xmlns='urn:ietf:params:xml:ns:xmpp-stanzas'/></failed>");
-            if (!waitFor("<bind")) {
+            // a diverging client may declare the session open without binding: that is an observation, not a hang
+            if (!qxvSpin([&] { return peer.received.contains("<bind") || connectedSignals > sig0; }, timeoutMs)) {
                 return fail("no bind after <failed/>");
+            }
+            if (!peer.received.contains("<bind")) {
+                qxvDrain(2);
+                flushClient(sent0, recv0);
+                absorb();
+                return true;
             }
         } else if (k == Resumed) {
             return fail("client did not ask for resumption");
@@ -180,6 +197,62 @@ struct SrvScript {
         }
         if (!qxvSpin([&] { return connectedSignals > sig0; }, timeoutMs)) {
             return fail("no connected signal");
+        }
+        qxvDrain(2);
+        flushClient(sent0, recv0);
+        return true;
+    }
+
+    // XEP-0388 authentication with inline bind 2 / stream management: resumption is requested and
+    // answered inside <authenticate/> / <success/>, stream management is enabled inside <bound/>.
+    bool connectSasl2(Kind k, int sig0, qint64 sent0, qint64 recv0)
+    {
+        const QString sm = QStringLiteral("urn:xmpp:sm:3");
+        QString feats = "<stream:features><authentication xmlns='urn:xmpp:sasl:2'><mechanism>PLAIN</mechanism><inline>"
+                        "<bind xmlns='urn:xmpp:bind:0'>";
+        if (k != Plain) {
+            feats += "<inline><feature var='urn:xmpp:sm:3'/></inline>";
+        }
+        feats += "</bind>";
+        if (k != Plain) {
+            feats += "<sm xmlns='urn:xmpp:sm:3'/>";
+        }
+        feats += "</inline></authentication></stream:features>";
+        peer.write((header() + feats).toUtf8());
+        if (!waitFor("</authenticate>")) {
+            return fail("no <authenticate/>");
+        }
+        const auto req = absorb();
+        const bool askedResume = req.contains("<resume");
+        QString ok = QStringLiteral("<success xmlns='urn:xmpp:sasl:2'><authorization-identifier>%1</authorization-identifier>").arg(c.configuration().jid());
+        if (k == Resumed) {
+            if (!askedResume) {
+                return fail("client did not ask for resumption");
+            }
+            ok += QStringLiteral("<resumed xmlns='%1' h='%2' previd='%3'/></success>").arg(sm).arg(smCount).arg(smId);
+            peer.write(ok.toUtf8());
+            smActive = true;
+        } else {
+            if (askedResume) {
+                ok += QStringLiteral("<failed xmlns='%1'><item-not-found xmlns='urn:ietf:params:xml:ns:xmpp-stanzas'/></failed>").arg(sm);
+            }
+            ok += "<bound xmlns='urn:xmpp:bind:0'>";
+            if (k != Plain && req.contains("<enable")) {
+                smId = QStringLiteral("sm%1").arg(streams);
+                smCount = 0;
+                smActive = true;
+                ok += k == SmR ? QStringLiteral("<enabled xmlns='%1' id='%2' resume='true'/>").arg(sm, smId)
+                               : QStringLiteral("<enabled xmlns='%1' id='%2'/>").arg(sm, smId);
+            } else if (k != Plain) {
+                return fail("client did not ask to enable stream management");
+            }
+            ok += "</bound></success>";
+            // no stream restart with SASL 2: the server goes on with the features of the bound stream
+            ok += k != Plain ? "<stream:features><sm xmlns='urn:xmpp:sm:3'/></stream:features>" : "<stream:features/>";
+            peer.write(ok.toUtf8());
+        }
+        if (!qxvSpin([&] { return connectedSignals > sig0; }, timeoutMs)) {
+            return fail("no connected signal (SASL 2)");
         }
         qxvDrain(2);
         flushClient(sent0, recv0);
